@@ -383,13 +383,14 @@ def twoUnsew3 (cfg : Cfg X) (n l : Nat) : P X Unit := do
     splitAttrs cfg 0 c d rvold
 
 /-- the two face walks used by `three_sew` / `three_unsew`:
-    `self.orbit(Custom(&[1, 0]), ld)` and `self.orbit(Custom(&[0, 1]), rd)`.
+    `self.orbit_transac(trans, Custom(&[1, 0]), ld)` and
+    `self.orbit_transac(trans, Custom(&[0, 1]), rd)`, each collected into a `Vec` up front
+    (first the left walk, then the right one), before any identifier is read.
 
-    NOTE: the Rust code calls the **non-transactional** `orbit` here (it reads the committed
-    state, not the transaction's view; DESIGN.md §8-D4).  The model runs the same BFS
-    transactionally on the current state.  This is equivalent whenever the enclosing transaction
-    has not written β0/β1 before the call — in particular for every single-operation transaction
-    (`force_sew`, `force_unsew`, a lone `sew`/`unsew`); `three_unlink` itself only writes β3. -/
+    (Since /repo commit "fix: three_sew and three_unsew walk the two faces through the
+    transaction" — DESIGN.md §8-D4 — both walks read the transaction's view, as this model always
+    did; before it the code used the non-transactional `orbit`, which only agreed with the model
+    when the enclosing transaction had not written β0/β1 before the call.) -/
 def faceOrbits3 (n ld rd : Nat) : P X (List Nat × List Nat) := do
   let lo ← orbitWith n (gen3 (.custom [1, 0])) ld
   let ro ← orbitWith n (gen3 (.custom [0, 1])) rd
